@@ -6,6 +6,7 @@ package template
 
 import (
 	"fmt"
+	"html"
 	"regexp"
 	"strings"
 )
@@ -125,7 +126,9 @@ func sanitizersForAttributeValue(c context) ([]string, error) {
 		// to prevent the injection of any new path segments or URL components. Moreover, they must
 		// not contain any ".." dot-segments.
 		ret = append(ret, queryEscapeURLFuncName, validateTrustedResourceURLSubstitutionFuncName)
-	case strings.ContainsAny(urlAttrValPrefix, "#?"):
+	case strings.ContainsAny(urlAttrValPrefix, "#?") || strings.ContainsAny(html.UnescapeString(urlAttrValPrefix), "#?"):
+		// The prefix is HTML-unescaped by the browser, so '?' and '#' can also be written as character
+		// references such as "&quest;" and "&num;".
 		// For URLs, we only escape in the query or fragment part to prevent the injection of new query
 		// parameters or fragments.
 		ret = append(ret, queryEscapeURLFuncName)
